@@ -469,6 +469,10 @@ func c06stream1(c *Ctx, emit func(c06case)) {
 		{"1", "try {\n  raise()\n} except e {\n  1\n}\nnull", "(CTryRaise 0)"},
 		{"1", "try {\n  raise()\n} except {\n  1\n}\nnull", "(CTryRaise 0)"},
 		{"1", "try {\n  raise(\"a\")\n} except e {\n  1\n}\nnull", "(CTryRaise 1)"},
+		// doc() with an argument whose first child is a constructed node (no token)
+		{"1", "m := {}\ndoc(m[\"\"])", ""},
+		{"1", "func g() {\n}\ndoc(g())", ""},
+		{"1", "m := {}\ndoc(m.x, 1)", ""},
 	}
 	for _, d := range corpus {
 		emit(d)
@@ -645,9 +649,12 @@ func c06stream1(c *Ctx, emit func(c06case)) {
 // ------------------------------------------------------------------------------- stream 2
 
 type c06gen struct {
-	c     *Ctx
-	depth int
-	vars  []string
+	c        *Ctx
+	depth    int
+	vars     []string
+	allowRec bool // diagnostic only (VERIF_C06_ALLOW_RECURSION): generate calls inside function bodies too
+	inFunc   bool // inside a generated function body: no calls of f0/f1 (unbounded recursion
+	// written by the user is outside the guarantee and overflows the Go stack)
 }
 
 func (g *c06gen) pick(xs []string) string { return xs[g.c.Rng.Intn(len(xs))] }
@@ -780,12 +787,21 @@ func (g *c06gen) stmt(d int, ind string) string {
 		}
 		return s + "\n"
 	case 7:
-		return ind + "func f" + fmt.Sprint(g.c.Rng.Intn(2)) + "(p, q=" + g.expr(1) + ") {\n" + g.block(d-1, ind+"  ") + ind + "  return " + g.expr(1) + "\n" + ind + "}\n"
+		if g.inFunc && !g.allowRec {
+			return ind + g.expr(2) + "\n"
+		}
+		g.inFunc = true
+		body := g.block(d-1, ind+"  ")
+		g.inFunc = false
+		return ind + "func f" + fmt.Sprint(g.c.Rng.Intn(2)) + "(p, q=" + g.expr(1) + ") {\n" + body + ind + "  return " + g.expr(1) + "\n" + ind + "}\n"
 	case 8:
 		n := g.c.Rng.Intn(4)
 		var a []string
 		for i := 0; i < n; i++ {
 			a = append(a, g.expr(1))
+		}
+		if g.inFunc && !g.allowRec {
+			return ind + "fn(" + strings.Join(a, ", ") + ")\n"
 		}
 		return ind + "f" + fmt.Sprint(g.c.Rng.Intn(2)) + "(" + strings.Join(a, ", ") + ")\n"
 	case 9:
@@ -796,19 +812,24 @@ func (g *c06gen) stmt(d int, ind string) string {
 	return ind + g.expr(2) + "\n"
 }
 
-func c06stream2(c *Ctx, emit func(c06case)) {
+// c06stream2 generates the random programs; they are executed in the CHILD process (kind
+// "fuzz"): a Go fatal error (stack overflow, concurrent map access, ...) cannot be recovered
+// and must kill the child, not this harness.
+func c06stream2(c *Ctx) []c06childProg {
 	n := c.Pick(2500, 60000)
+	ps := make([]c06childProg, 0, n)
 	for i := 0; i < n; i++ {
-		g := &c06gen{c: c, vars: []string{"a", "b", "l", "m", "fn"}}
+		g := &c06gen{c: c, vars: []string{"a", "b", "l", "m", "fn"}, allowRec: os.Getenv("VERIF_C06_ALLOW_RECURSION") != ""}
 		src := c06prelude + "a := " + g.atom() + "\nb := " + g.atom() + "\nl := [1, 2, 3]\nm := {\"a\" : [1, 2], 1 : 2, \"b\" : {\"x\" : 1}}\n" + g.block(2+c.Rng.Intn(2), "")
-		emit(c06case{"2", src, ""})
+		ps = append(ps, c06childProg{"fuzz", src})
 	}
+	return ps
 }
 
 // ------------------------------------------------------------------------------- streams 3, 4 (child)
 
 type c06childProg struct {
-	Kind string `json:"kind"` // "worker" (any panic / exit is the violation), "trycatch", "sinklocal"
+	Kind string `json:"kind"` // "worker", "fuzz" (any panic / exit is the violation), "trycatch", "sinklocal"
 	Src  string `json:"src"`
 }
 
@@ -888,8 +909,8 @@ func runC06Child(c *Ctx) error {
 	if err := json.Unmarshal(b, &ps); err != nil {
 		return err
 	}
-	// a runaway recursion reaches the stack limit quickly instead of filling 1 GB first
-	debug.SetMaxStack(32 << 20)
+	// a runaway recursion reaches the stack limit quickly instead of filling 1 GB first (fmt on a cyclic value needs seconds per 10 MB of stack)
+	debug.SetMaxStack(8 << 20)
 	for i, p := range ps {
 		fmt.Printf("@@START %d\n", i)
 		os.Stdout.Sync()
@@ -900,7 +921,7 @@ func runC06Child(c *Ctx) error {
 			if msg != "" {
 				fmt.Printf("@@VIOL %d %s\n", i, strings.ReplaceAll(msg, "\n", " "))
 			}
-		case <-time.After(10 * time.Second):
+		case <-time.After(20 * time.Second):
 			// a cascade that never finishes is C02/C09's subject; the process is no longer
 			// in a known state, so stop here and let the parent resume after this program
 			fmt.Printf("@@TIMEOUT %d\n", i)
@@ -926,7 +947,7 @@ func c06childRun(p c06childProg) string {
 		return "generator: program did not parse: " + err.Error()
 	}
 	if err = ast.Runtime.Validate(); err != nil {
-		if p.Kind == "worker" {
+		if p.Kind == "worker" || p.Kind == "fuzz" {
 			return ""
 		}
 		return "generator: program did not validate: " + err.Error()
@@ -1010,8 +1031,12 @@ func c06runChild(c *Ctx, ps []c06childProg) {
 				lastStart = i
 			} else if n, _ := fmt.Sscanf(l, "@@DONE %d", &i); n == 1 {
 				lastDone = i
-				c.Dist["s3_child_programs_"+ps[start+i].Kind]++
-				c.Count(ps[start+i].Src, true, c06case{Stream: "3", Src: ps[start+i].Src})
+				if ps[start+i].Kind == "fuzz" {
+					c.Dist["s2_child_programs_fuzz"]++
+				} else {
+					c.Dist["s3_child_programs_"+ps[start+i].Kind]++
+				}
+				c.Count(ps[start+i].Src, true, c06case{Stream: c06streamOf(ps[start+i]), Src: ps[start+i].Src})
 			} else if strings.HasPrefix(l, "@@VIOL ") {
 				rest := strings.TrimPrefix(l, "@@VIOL ")
 				sp := strings.SplitN(rest, " ", 2)
@@ -1066,13 +1091,13 @@ func c06runChild(c *Ctx, ps []c06childProg) {
 					line = line[:j]
 				}
 				msg = "the host process died: " + line
-				key = "fatal-error"
-				if strings.Contains(line, "stack overflow") {
-					key = "fatal:stack-overflow"
+				key = "fatal:" + strings.Trim(regexp.MustCompile(`[^a-z0-9]+`).ReplaceAllString(strings.ToLower(strings.TrimPrefix(line, "fatal error: ")), "-"), "-")
+				if len(key) > 60 {
+					key = key[:60]
 				}
 			}
-			c.Violate(key, msg, c06case{Stream: "3", Src: culprit.Src})
-			c.Count(culprit.Src, true, c06case{Stream: "3", Src: culprit.Src})
+			c.Violate(key, msg, c06case{Stream: c06streamOf(culprit), Src: culprit.Src})
+			c.Count(culprit.Src, true, c06case{Stream: c06streamOf(culprit), Src: culprit.Src})
 		}
 		start += lastStart + 1
 		if c.Enough() {
@@ -1080,6 +1105,13 @@ func c06runChild(c *Ctx, ps []c06childProg) {
 		}
 	}
 	os.RemoveAll(filepath.Join(c.Out, "c06_child_out"))
+}
+
+func c06streamOf(p c06childProg) string {
+	if p.Kind == "fuzz" {
+		return "2"
+	}
+	return "3"
 }
 
 func c06dropRuntimeFrames(st string) string {
@@ -1104,7 +1136,7 @@ func tail(s string, n int) string {
 // ------------------------------------------------------------------------------- main
 
 func runC06(c *Ctx) error {
-	c.Rule = "stream 1: every modelled primitive (18 binary and 3 unary operators, map literal incl. malformed entries, element read / assignment with one and two indices, 10 built-ins, 5 sink attributes, raise inside try) x argument vectors over the universe {null, true, 0, 1, -1, 2.5, 1e+300, \"s\", \"\", [], [1,2], [[1]], {}, {\"a\":1}, a function} extended by boundary values {5,-5,3,2,-2,-3,0.5,NaN,+Inf,\"NaN\",\"1\",[1,2,3],{\"super\":1},{1:2},false,[\"a\"]}: exhaustive for operators and for built-in vectors of length 0..2, all (thorough) or a seeded quarter (quick) of length 3, seeded samples of length 4; outcome class compared with the Coq model; unmodelled built-ins for panics only.  stream 2: seeded random syntactically valid programs (depth <= 3) with ill-typed and boundary operands, any panic is a violation.  streams 3/4 (child process, real pool workers): sinks x event state values x panicking bodies, attribute values of every kind, errors inside try, errors inside one sink of several.  non-trivial = the outcome is not a plain value; distinct by program text"
+	c.Rule = "stream 1: every modelled primitive (18 binary and 3 unary operators, map literal incl. malformed entries, element read / assignment with one and two indices, 10 built-ins, 5 sink attributes, raise inside try) x argument vectors over the universe {null, true, 0, 1, -1, 2.5, 1e+300, \"s\", \"\", [], [1,2], [[1]], {}, {\"a\":1}, a function} extended by boundary values {5,-5,3,2,-2,-3,0.5,NaN,+Inf,\"NaN\",\"1\",[1,2,3],{\"super\":1},{1:2},false,[\"a\"]}: exhaustive for operators and for built-in vectors of length 0..2, all (thorough) or a seeded quarter (quick) of length 3, seeded samples of length 4; outcome class compared with the Coq model; unmodelled built-ins for panics only.  stream 2: seeded random syntactically valid programs (depth <= 3) with ill-typed and boundary operands, executed in the child process, any panic or fatal error is a violation (generated functions do not call each other: user-written recursion is excluded by the property).  streams 3/4 (child process, real pool workers): sinks x event state values x panicking bodies, attribute values of every kind, errors inside try, errors inside one sink of several.  non-trivial = the outcome is not a plain value; distinct by program text"
 	c.BeginCases("From Ecal Require Import Model.Prims Run.RunC06.\nFrom Coq Require Import ZArith String List.\nImport ListNotations.\nOpen Scope string_scope.", "case", 500)
 
 	if c.Replay != "" {
@@ -1113,6 +1145,10 @@ func runC06(c *Ctx) error {
 			return err
 		}
 		switch d.Stream {
+		case "5":
+			c06interpStream(c) // interpreter model stream (c06_interp.go)
+		case "2":
+			c06runChild(c, []c06childProg{{Kind: "fuzz", Src: d.Src}})
 		case "3", "4":
 			c06runChild(c, []c06childProg{{Kind: "worker", Src: d.Src}})
 			if d.Stream == "4" {
@@ -1135,9 +1171,12 @@ func runC06(c *Ctx) error {
 		c06one(c, d)
 	}
 	c06stream1(c, emit)
-	c06stream2(c, emit)
 	if !c.Enough() {
-		c06runChild(c, c06childProgs(c))
+		// known-finding witness and worker programs first, then the random programs of stream 2
+		c06runChild(c, append(c06childProgs(c), c06stream2(c)...))
+	}
+	if !c.Enough() {
+		c06interpStream(c) // stream 5: whole programs against Model/Interp.v (c06_interp.go, own case files)
 	}
 	if c.Enough() {
 		c.Notes = append(c.Notes, "sweep stopped early after repeated violations")
